@@ -192,6 +192,9 @@ HashClauses(ev, Q) ==
    <<"different_content_different_hash", ev.digest \in DOMAIN seen => seen[ev.digest] = <<ev.lab, Q>>>>}
   \cup (IF Has(ev, "digest_reordered")
         THEN {<<"hash_independent_of_dictionary_key_order", ev.digest_reordered = ev.digest>>} ELSE {})
+  \* a fresh object given the same content in the opposite insertion order, every hyperedge's nodes listed backwards
+  \cup (IF Has(ev, "digest_rebuilt")
+        THEN {<<"hash_independent_of_insertion_order", ev.digest_rebuilt = ev.digest>>} ELSE {})
   \* two copies that differ in one (float) weight by a relative 2^-34 are different contents
   \cup (IF Has(ev, "digest_close")
         THEN {<<"hash_distinguishes_close_weights", ev.digest_close[1] # ev.digest_close[2]>>} ELSE {})
